@@ -54,7 +54,12 @@ pub fn run(reg: &dyn Registry, ctx: &Ctx) -> Outcome {
             (Ok(t), Ok(j), Ok(l)) => (t, j, l),
             (a, b, c) => {
                 let e = [a.err(), b.err(), c.err()].into_iter().flatten().collect::<Vec<_>>().join("; ");
-                ctx.violation(&format!("C06:{}:extract", info.name), &format!("{}: cannot extract step/jump matrices: {}", info.name, e), json!({"kind":"note"}));
+                if e.contains("panicked") {
+                    // a jump that panics does not leave the generator 2^(n/2) steps ahead
+                    ctx.violation(&format!("C06:{}:extract", info.name), &format!("{}: cannot extract step/jump matrices: {}", info.name, e), json!({"kind":"note"}));
+                } else {
+                    ctx.machinery(&format!("{}: cannot extract step/jump matrices (undecided): {}", info.name, e));
+                }
                 continue;
             }
         };
@@ -85,8 +90,34 @@ pub fn run(reg: &dyn Registry, ctx: &Ctx) -> Outcome {
             }
         }
         if !bound {
-            // code is not the extracted linear map: only assumption-free relations can decide
             ctx.note(&format!("{}_not_bound", info.name), json!(true));
+        }
+        // states on which jump()/long_jump() are not the linear map extracted from them: first try the
+        // assumption-free relations on exactly those states; if the step model itself is bound, a state
+        // whose jump differs from T^(2^k) applied to it is a concrete counterexample
+        let mut witnessed = false;
+        for (name, op, b, want) in [("jump", LinOp::Jump, &j, &tj), ("long_jump", LinOp::LongJump, &l, &tl)] {
+            for m in b.mismatches.iter().take(6) {
+                let st = &m.state;
+                match guarded(|| commute_check(*ty, st)).unwrap_or_else(|o| Err(format!("{:?}", o))) {
+                    Err(e) => {
+                        witnessed = true;
+                        ctx.violation(&format!("C06:{}:commute", info.name), &format!("{}: from state {}: {}", info.name, hex(&st.to_bytes()), e), json!({"kind":"commute","type":info.name,"state":hex(&st.to_bytes())}));
+                    }
+                    Ok(_) => {}
+                }
+                if t.mismatch_count == 0 {
+                    let exp = want.apply(st);
+                    if m.got.as_ref() != Some(&exp) {
+                        witnessed = true;
+                        ctx.violation(
+                            &format!("C06:{}:{}-state", info.name, name),
+                            &format!("{}: {}() from state {} reaches {} instead of the state 2^{} steps ahead, {} (the step matrix is bound to the code by the replay)", info.name, name, hex(&st.to_bytes()), m.got.as_ref().map(|g| hex(&g.to_bytes())).unwrap_or_else(|| m.error.clone().unwrap_or_default()), if op == LinOp::Jump { n / 2 } else { 3 * n / 4 }, hex(&exp.to_bytes())),
+                            json!({"kind":"jump-witness","type":info.name,"op":name,"state":hex(&st.to_bytes()),"expected_state":hex(&exp.to_bytes())}),
+                        );
+                    }
+                }
+            }
         }
 
         // outputs after a jump equal those of a generator built from the predicted state
@@ -135,7 +166,7 @@ pub fn run(reg: &dyn Registry, ctx: &Ctx) -> Outcome {
                 Err(e) => ctx.violation(&format!("C06:{}:commute", info.name), &format!("{}: from state {}: {}", info.name, hex(&s.to_bytes()), e), json!({"kind":"commute","type":info.name,"state":hex(&s.to_bytes())})),
             }
         }
-        if !bound && model_ok {
+        if !bound && model_ok && !witnessed {
             // non-linear but the relations above found nothing and the matrices agree: undecided
             ctx.machinery(&format!("{}: step/jump not bound to the extracted linear model ({} replay mismatches) and no direct witness found", info.name, t.mismatch_count + j.mismatch_count + l.mismatch_count));
         }
